@@ -1,7 +1,7 @@
 (* C15: the model side of the shared-formula correspondence; same sub-commands and canonical
    answers as harness/src/cmds/sharedfmla.rs.
      rcn  <hex text> <dr> <dc> <alnum>                -> ok:<hex> | err | panic
-     tok  <tokens> <dr> <dc> <hex render> <alnum>     -> <model>|<spec hex>|<clip hex>|<known>|<known_at>|<inrange>|<wf>|<render agrees>
+     tok  <tokens> <dr> <dc> <hex render> <alnum>     -> <model>|<spec hex>|<clip hex>|<inrange>|<wf>|<render agrees>
      c2n / cn2n / grc / gdim                          -> as on the Rust side
      sheet <cells> <path> <hex name> <alnum>          -> canonical Range<String> text of worksheet_formula
    <alnum> = ','-separated decimal scalar values: the non-ASCII characters for which Rust's
@@ -66,8 +66,6 @@ let parse_token (s : string) : token =
 
 let parse_tokens (s : string) : token list = List.map parse_token (split_on ',' s)
 
-let opt_class o = match o with Some k -> string_of_n k | None -> "-"
-
 let tok (args : string list) : string =
   match args with
   | ts :: dr :: dc :: hexr :: al :: _ ->
@@ -78,7 +76,7 @@ let tok (args : string list) : string =
     let model = text_answer (replace_cell_names is_alnum text off) in
     let spec = hex_of_scalars (render_all (List.map (translate off) ts)) in
     let clip = hex_of_scalars (render_all (List.map (translate_clip off) ts)) in
-    String.concat "|" [ model; spec; clip; opt_class (known_C15 ts); opt_class (known_at off ts);
+    String.concat "|" [ model; spec; clip;
                         (if in_rangeb ts off then "1" else "0");
                         (if wf_formula is_alnum ts then "1" else "0");
                         (if hex_of_scalars text = String.lowercase_ascii hexr then "1" else "0") ]
